@@ -6,7 +6,7 @@ Import ListNotations.
 Local Open Scope Z_scope.
 
 Inductive ity := I8 | I16 | I32 | I64 | U8 | U16 | U32 | U64.
-Inductive ty := TInt (t : ity) | TBool | TVoid.
+Inductive ty := TInt (t : ity) | TBool | TVoid | TStruct (sid : nat).   (* struct sid: fields are integers (Syntax.structs table) *)
 
 Inductive binop := Add | Sub | Mul | Div | Mod | Eq | Ne | Lt | Le | Gt | Ge | And | Or.
 Inductive unop := Neg | Not.
@@ -18,13 +18,16 @@ Inductive expr :=
 | EBin (o : binop) (a b : expr)
 | EUn (o : unop) (a : expr)
 | ECast (a : expr) (t : ity)
-| ECall (f : nat) (args : list expr).
+| ECall (f : nat) (args : list expr)
+| EStructLit (sid : nat) (es : list expr)      (* { .F0 = e0, .F1 = e1, ... } as S<sid> *)
+| EField (e : expr) (k : nat).                  (* e.F<k> *)
 
 Inductive stmt :=
 | SSkip
 | SSeq (a b : stmt)
 | SLet (x : nat) (t : ty) (e : expr)        (* let x: t = e;  (immutable `const` is rendered from the same node) *)
 | SAssign (x : nat) (e : expr)
+| SAssignField (x : nat) (k : nat) (e : expr)   (* x.F<k> = e : only that component changes *)
 | SIf (c : expr) (a b : stmt)               (* each branch is a block (own scope) *)
 | SWhile (c : expr) (body : stmt)
 | SFor (x : nat) (t : ity) (lo hi : expr) (body : stmt)   (* for x in lo..hi { body }: hi exclusive, bounds evaluated once *)
@@ -48,8 +51,12 @@ Definition ty_eqb (a b : ty) : bool :=
   | TInt x, TInt y => ity_eqb x y
   | TBool, TBool => true
   | TVoid, TVoid => true
+  | TStruct a, TStruct b => Nat.eqb a b
   | _, _ => false
   end.
+
+(* struct table: struct sid has the listed integer field types (by-value aggregates) *)
+Definition structs_t := list (list ity).
 
 Definition bits (t : ity) : Z :=
   match t with I8 | U8 => 8 | I16 | U16 => 16 | I32 | U32 => 32 | I64 | U64 => 64 end.
